@@ -2,6 +2,8 @@ SPECIFICATION Spec
 CONSTANTS
     Impl = "pinned"
     Kind = "sn"
+    Half = "modes"
+    Temps = {1000}
     MaxBn = 1
     TrackHist = FALSE
     MaxLen = 0
